@@ -741,9 +741,9 @@ pub fn drive_c10(t: &Tier, sink: &mut Sink, stats: &mut Stats) {
                 let mut b = v.clone();
                 b.extend(std::iter::repeat(0).take(pad));
                 let preps: &[Prep] = match kind {
-                    Kind::A => &[Prep::Fresh, Prep::Heap, Prep::Summed, Prep::Spare, Prep::Shrunk],
-                    Kind::D => &[Prep::Fresh, Prep::Spare, Prep::Summed, Prep::Shrunk, Prep::Reserved],
-                    _ => &[Prep::Fresh, Prep::Summed, Prep::Shrunk, Prep::Pushed],
+                    Kind::A => &[Prep::Fresh, Prep::Heap, Prep::Summed, Prep::Spare, Prep::Shrunk, Prep::Ored(Kind::D)],
+                    Kind::D => &[Prep::Fresh, Prep::Spare, Prep::Summed, Prep::Shrunk, Prep::Reserved, Prep::Ored(Kind::A)],
+                    _ => &[Prep::Fresh, Prep::Summed, Prep::Shrunk, Prep::Pushed, Prep::Ored(Kind::D), Prep::Ored(Kind::A), Prep::Ored(Kind::F16x4)],
                 };
                 for prep in preps.iter().copied() {
                     let (x, ok) = make(kind, &b, prep);
